@@ -211,6 +211,9 @@ def worker(case: Dict[str, Any]) -> CaseResult:
         (root / "csm.py").write_text(csm)
         cfg_full["files_to_include"] = [str(root / "csm.py")]
         cfg = write_case(root, sdl, queries, cfg_full)
+        if case["idx"] % 5 == 1 and not case.get("config_rel"):
+            from ..genpkg import plant_stale_bundled_copies
+            stats["stale_bundled_copies_planted"] = plant_stale_bundled_copies(root, cfg)  # the target holds another release's copies: they must be replaced
         if case["idx"] % 3 == 0:
             # something was generated in this interpreter before: the same inputs with nothing configured
             from ..genpkg import DECOY_KINDS, decoy_generations
@@ -394,7 +397,20 @@ def worker(case: Dict[str, Any]) -> CaseResult:
                     with patched_ws(client, server, [world]):
                         status, value = call_method(client, is_async, mname, kwargs)
                 else:
+                    flaky = wi == 2 and not top_level_scalar_dirty
+                    if flaky:
+                        server.drop_next = 1  # the peer drops the connection after reading the request: whatever the client does about it, each value is serialised once per call
                     status, value = call_method(client, is_async, mname, kwargs)
+                    server.drop_next = 0
+                    if flaky:
+                        ser_calls = sorted((i, a) for k, i, a in csm_mod.CALLS if k == "serialize")
+                        ser_want = sorted((i, repr(in_python(scalars[i], tok))) for i, tok in serialize_expected)
+                        count("calls_with_dropped_connection")
+                        if ser_calls != ser_want:
+                            violations.append(Violation(PROP, "serialize-exactly-once", "%s: the peer dropped the connection after the first request (%d request(s) sent, call %s): serialize calls %r, "
+                                                        "expected one per non-null occurrence %r" % (op_name, len(server.captured) - n0, status, ser_calls[:12], ser_want[:12]),
+                                                        sorted(feats | vg.feats | var_feats), replay_case, mech="c07:serialize-once"))
+                        continue
                 calls = list(csm_mod.CALLS)
                 count("calls")
                 fl = sorted(feats | vg.feats | var_feats)
